@@ -48,6 +48,11 @@ CONTEXTS = [
 ]
 TAILTXT = ' Wtaq Wtbq Wtcq.'
 CONFIGS = {'std': {'pack': '*', 'lang': 'en'}, 'seqs': {'pack': '*', 'lang': 'de', 'seqs': True}}
+# well-formed texts under further option sets (no mark, no diagnostic expected)
+OK_RAW = ['The box is here, six taxis next exit.', 'A $x$ fox \\[ax = b.\\] x', 'Text\\footnote{x}, \\LTadd{x} \\LTskip{y} x\n%%% LT-SKIP-BEGIN\nx\n%%% LT-SKIP-END\nx',
+          'x\\verb|x| \\begin{verbatim}x\\end{verbatim} x', 'Ein "a "` x "\' "- "= x']
+OK_CFGS = [{'pack': '*', 'lang': 'en', 'nosp': True}, {'pack': '', 'lang': 'de', 'nosp': True, 'seqs': True}, {'pack': '*', 'lang': 'ru'},
+           {'pack': '*', 'lang': 'en', 'extr': 'footnote'}, {'pack': '*', 'lang': 'de', 'unkn': True}]
 
 
 def build(case):
@@ -108,6 +113,9 @@ class C08:
                         for final_nl in ((0,) if f[0] == 'verb-eot' else (0, 1) if c[0] == 'top' else (1,)):
                             for cfg in CONFIGS:
                                 yield ['fault', fi, ci, tail, sep, final_nl, cfg]
+        for ti in range(len(OK_RAW)):
+            for ci in range(len(OK_CFGS)):
+                yield ['okraw', ti, ci]
         if tier == 'quick':
             for n in (1, 2):
                 for f in cat.forests(cat.ALL, n):
@@ -118,7 +126,18 @@ class C08:
                 for lang in catcheck.langs_for(f):
                     yield ['ok', f, sep, lang]
 
+    def judge_okraw(self, case):
+        src = OK_RAW[case[1]]
+        o = impl.run_filter(src, OK_CFGS[case[2]])
+        viol = []
+        if o.kind != 'ok' or MARK[:6] in o.result[0] or o.stderr:
+            viol.append({'clause': 'a well-formed document produces neither mark nor diagnostic', 'sig': 'C08:false-mark:options',
+                         'detail': {'source': src, 'options': OK_CFGS[case[2]], 'plain': o.result and o.result[0], 'stderr': o.stderr[:300], 'info': o.info}})
+        return {'viol': viol, 'out': [o.result and o.result[0], o.stderr], 'nt': True, 'tr': 1}
+
     def judge(self, case):
+        if case[0] == 'okraw':
+            return self.judge_okraw(case)
         if case[0] == 'ok':
             return self.judge_ok(case)
         return self.judge_fault(case)
@@ -189,6 +208,8 @@ class C08:
         return {'viol': viol[:2], 'out': [plain, nums, o.stderr], 'nt': True, 'tr': 1}
 
     def explain(self, case):
+        if case[0] == 'okraw':
+            return 'source %r options %r' % (OK_RAW[case[1]], OK_CFGS[case[2]])
         if case[0] == 'ok':
             return catcheck.explain(case[1:])
         src, fo = build(case)
